@@ -144,18 +144,18 @@ Print Assumptions C11_readlines_text_of_lines.
 
 (* ---- record framing.  A, build_mol, build_rxn (everything after the line parsers) and buffer_size are arbitrary ---- *)
 Theorem C11_sdf_framing : forall (A : Type) (build_mol : parsed3 -> pyres A) (buffer_size : nat) recs last,
-  Forall (fun rd => sdf_record_ok buffer_size (fst rd) /\ fst rd <> [] /\ is_delim (snd rd) = true) recs ->
+  Forall (fun rd => sdf_record_ok buffer_size (fst rd) /\ is_delim (snd rd) = true) recs ->
   sdf_record_ok buffer_size last ->
-  sdf_read A build_mol buffer_size (sdf_file recs last) = collect A (map (sdf_one A build_mol) (map fst recs ++ [last])).
+  sdf_read A build_mol buffer_size (sdf_file recs last) = collect A (sdf_results A build_mol recs last).
 Proof. exact sdf_framing. Qed.
 Print Assumptions C11_sdf_framing.
 
+(* records may be EMPTY (delimiter right after delimiter: an invalid record, skipped); ValueError and IndexError are skipped *)
 Theorem C11_sdf_damaged_records_skipped : forall (A : Type) (build_mol : parsed3 -> pyres A) (buffer_size : nat) recs last,
-  Forall (fun rd => sdf_record_ok buffer_size (fst rd) /\ fst rd <> [] /\ is_delim (snd rd) = true) recs ->
+  Forall (fun rd => sdf_record_ok buffer_size (fst rd) /\ is_delim (snd rd) = true) recs ->
   sdf_record_ok buffer_size last ->
-  Forall (skippable A) (map (sdf_one A build_mol) (map fst recs)) -> last = [] \/ skippable A (sdf_one A build_mol last) ->
-  sdf_read A build_mol buffer_size (sdf_file recs last) =
-  (successes A (map (sdf_one A build_mol) (map fst recs ++ [last])), Exhausted).
+  Forall (skippable A) (sdf_results A build_mol recs last) ->
+  sdf_read A build_mol buffer_size (sdf_file recs last) = (successes A (sdf_results A build_mol recs last), Exhausted).
 Proof. exact sdf_damaged_records_skipped. Qed.
 Print Assumptions C11_sdf_damaged_records_skipped.
 
@@ -169,9 +169,9 @@ Print Assumptions C11_rdf_framing.
 
 (* one record on its own lines: the MOL block (up to the first "M  END" line) goes to the parser, the rest to read_metadata;
    RDF: the structure goes to the parser, the lines from the first "$DTYPE" line on to read_metadata *)
-Theorem C11_sdf_record_split : forall (A : Type) (build_mol : parsed3 -> pyres A) ml e metal,
+Theorem C11_sdf_record_split : forall (A : Type) (build_mol : parsed3 -> pyres A) b ml e metal,
   Forall (fun l => is_mend l = false) ml -> is_mend e = true ->
-  sdf_one A build_mol (ml ++ e :: metal) =
+  sdf_one A build_mol b (ml ++ e :: metal) =
   match dispatch_mol A build_mol (ml ++ [e]) with
   | Err x => inr (Py x)
   | Ok mol => inl (mol, sdf_read_metadata metal)
@@ -188,12 +188,12 @@ Theorem C11_rdf_record_split : forall (A : Type) (build_mol : parsed3 -> pyres A
 Proof. exact rdf_record_split. Qed.
 Print Assumptions C11_rdf_record_split.
 
-(* non-vacuity: three-record files with a damaged middle record *)
+(* non-vacuity: an SDF file whose three middle records are damaged (garbage counts, empty, truncated to two lines); an RDF file with a damaged middle record *)
 Theorem C11_sdf_framing_example :
-  Forall (fun rd => sdf_record_ok 100 (fst rd) /\ fst rd <> [] /\ is_delim (snd rd) = true) ex_recs /\
+  Forall (fun rd => sdf_record_ok 100 (fst rd) /\ is_delim (snd rd) = true) ex_recs /\
   sdf_record_ok 100 [] /\
-  map (sdf_one (option str) ex_build) (map fst ex_recs) =
-    [inl (Some (L "a"), [(L "k", L "v")]); inr (Py ValueError); inl (Some (L "c"), [(L "k", L "v")])] /\
+  sdf_results (option str) ex_build ex_recs [] =
+    [inl (Some (L "a"), [(L "k", L "v")]); inr (Py ValueError); inr (Py ValueError); inr (Py IndexError); inl (Some (L "c"), [(L "k", L "v")]); inr EOFError] /\
   sdf_read (option str) ex_build 100 (sdf_file ex_recs []) = ([(Some (L "a"), [(L "k", L "v")]); (Some (L "c"), [(L "k", L "v")])], Exhausted).
 Proof. exact sdf_framing_example. Qed.
 Print Assumptions C11_sdf_framing_example.
